@@ -88,6 +88,8 @@ def build(case):
         opts.update(nt=300, ns=900, dtype_ids='uint16', clusters='curated', far_ids=0, raw='none', features='none')
     opts.update(dtype_amps=['float64', 'float32'][int(rng.integers(0, 2))],
                 dtype_templates=['float32', 'float32', 'float64'][int(rng.integers(0, 3))])
+    if case['seed'][2] % 5 == 2:
+        opts['exact_amps'] = True        # every template has an exactly silent channel (on which another template of a merge may have signal)
     if rng.random() < 0.04:
         # very long recordings: sample indices beyond 2**32 (> 39.8 h at 30 kHz)
         opts.update(n_samples=int(2 ** 32 + rng.integers(1, 10 ** 9)), raw='none', rate=30000.,
